@@ -57,7 +57,9 @@ fn pump(mut src: TcpStream, mut dst: TcpStream, dir: u8, log: Arc<Mutex<Vec<Rec>
                     if dst.write_all(&pdu).is_err() { /* peer gone: keep draining the source */ }
                 }
             }
-            Err(_) => { push(Ev::Reset); let _ = dst.shutdown(Shutdown::Both); break; }
+            // a reset cannot be forwarded as such: end the forward direction only (shutting down both would
+            // make the opposite pump read a false end-of-stream and miss what the other side still writes)
+            Err(_) => { push(Ev::Reset); let _ = dst.shutdown(Shutdown::Write); break; }
         }
     }
 }
